@@ -490,10 +490,13 @@ func (vc *VC) havocMods(st *State, mods []modLoc) (wfs []func()) {
 		inner := arrayElemSort(h.Sort)
 		switch {
 		case m.all:
-			vc.setHeap(st, m.key, vc.declare("hk", h.Sort))
+			hk := vc.declare("hk", h.Sort)
+			vc.setHeap(st, m.key, hk)
+			wfs = append(wfs, func() { vc.heapWF(hk, m.key, st.Alloc.S) })
 		case m.whole:
 			fr := vc.declare("hv", inner)
 			vc.setHeap(st, m.key, Store(h, m.obj, fr))
+			wfs = append(wfs, func() { vc.rowWF(fr, m.key, st.Alloc.S) })
 		case m.single:
 			fr := vc.declare("hv", arrayElemSort(inner))
 			vc.setHeap(st, m.key, Store(h, m.obj, Store(Select(h, m.obj), m.lo, fr)))
